@@ -79,6 +79,9 @@ func entName(ty int) string {
 	case 3:
 		return state.EntityType(E3{})
 	}
+	if ty == 6 {
+		return "custom.Entity-6"
+	}
 	return state.EntityType(E4{})
 }
 
@@ -137,10 +140,20 @@ type stateCase struct {
 	c1     *state.TypedCollection[E1]
 	c2     *state.TypedCollection[E2]
 	c3     *state.TypedCollection[E3]
+	c6     *state.TypedCollection[E1] // registered under an explicit entity type name (NewTypedCollectionWithType)
 	cbs    []string
 	out    []string
 	close  []func()
 	rawN   int
+	want   wantHeaders // what the options of the next helper call must put into the headers
+}
+
+type wantHeaders struct {
+	set  bool
+	tx   string
+	ts   string // explicit timestamp, formatted
+	auto bool   // WithAutoTimestamp
+	t0   time.Time
 }
 
 func (sc *stateCase) newMat() {
@@ -159,7 +172,7 @@ func (sc *stateCase) newMat() {
 		opts = append(opts, state.WithStrictSchema())
 	}
 	sc.mat = state.NewMaterializer(opts...)
-	sc.c1, sc.c2, sc.c3 = nil, nil, nil
+	sc.c1, sc.c2, sc.c3, sc.c6 = nil, nil, nil, nil
 	sc.cbs = nil
 	for _, ty := range sc.regs {
 		sc.register(ty)
@@ -183,7 +196,30 @@ func (sc *stateCase) register(ty int) {
 			sc.c3 = state.NewTypedCollection[E3](state.NewMemoryStore[E3]())
 			state.RegisterCollection(sc.mat, sc.c3)
 		}
+	case 6:
+		if sc.c6 == nil {
+			sc.c6 = state.NewTypedCollectionWithType[E1](state.NewMemoryStore[E1](), entName(6))
+			state.RegisterCollection(sc.mat, sc.c6)
+		}
 	}
+}
+
+// getAgrees: Get(key) of a typed collection returns exactly what All() holds under CompositeKey(type, key)
+func getAgrees[T any](c *state.TypedCollection[T], name string) string {
+	for ck, e := range c.All() {
+		key := strings.TrimPrefix(ck, state.CompositeKey(name, ""))
+		if state.CompositeKey(c.EntityType(), key) != ck {
+			return fmt.Sprintf("!collection %s holds a key outside its type: %q", name, ck)
+		}
+		got, ok := c.Get(key)
+		if !ok || !reflect.DeepEqual(got, e) {
+			return fmt.Sprintf("!Get(%q) of collection %s disagrees with All()", key, name)
+		}
+	}
+	if _, ok := c.Get("no-such-key-\x00"); ok {
+		return fmt.Sprintf("!Get of collection %s finds a key that was never written", name)
+	}
+	return ""
 }
 
 func keyCode(s string) int {
@@ -241,6 +277,24 @@ func (sc *stateCase) dump() string {
 			parts = append(parts, "2:"+dumpColl(entName(2), sc.c2.All(), func(e E2) int { return e.ID }, mkE2))
 		case 3:
 			parts = append(parts, "3:"+dumpColl(entName(3), sc.c3.All(), func(e E3) int { return e.ID }, mkE3))
+		case 6:
+			parts = append(parts, "6:"+dumpColl(entName(6), sc.c6.All(), func(e E1) int { return e.ID }, mkE1))
+		}
+	}
+	for _, ty := range sc.regs {
+		bad := ""
+		switch ty {
+		case 1:
+			bad = getAgrees(sc.c1, entName(1))
+		case 2:
+			bad = getAgrees(sc.c2, entName(2))
+		case 3:
+			bad = getAgrees(sc.c3, entName(3))
+		case 6:
+			bad = getAgrees(sc.c6, entName(6))
+		}
+		if bad != "" {
+			return bad
 		}
 	}
 	cbs := "-"
@@ -258,9 +312,32 @@ func optS(s string) string {
 }
 
 func (sc *stateCase) publishChange(m *state.ChangeMessage, err error) {
+	w := sc.want
+	sc.want = wantHeaders{}
 	if err != nil {
 		sc.out = append(sc.out, "helper-error")
 		return
+	}
+	// the headers are what the options said: transaction id verbatim; an explicit timestamp in RFC 3339 with
+	// nanoseconds and its own zone; WithAutoTimestamp: the current time in UTC; an explicit one wins; none otherwise
+	if m.Headers.TxID != w.tx {
+		sc.out = append(sc.out, fmt.Sprintf("!txid header is %q, the option said %q", m.Headers.TxID, w.tx))
+	}
+	switch {
+	case w.ts != "":
+		if m.Headers.Timestamp != w.ts {
+			sc.out = append(sc.out, fmt.Sprintf("!timestamp header is %q, the option said %q", m.Headers.Timestamp, w.ts))
+		}
+	case w.auto:
+		t, perr := time.Parse(time.RFC3339Nano, m.Headers.Timestamp)
+		if perr != nil || !strings.HasSuffix(m.Headers.Timestamp, "Z") || t.Before(w.t0.Add(-time.Second)) || t.After(time.Now().Add(time.Second)) {
+			sc.out = append(sc.out, fmt.Sprintf("!automatic timestamp header is %q at %s", m.Headers.Timestamp, w.t0.UTC().Format(time.RFC3339Nano)))
+		}
+		m.Headers.Timestamp = "auto" // (not reproducible: the wire check and the trace see a fixed word)
+	default:
+		if m.Headers.Timestamp != "" {
+			sc.out = append(sc.out, fmt.Sprintf("!timestamp header %q without a timestamp option", m.Headers.Timestamp))
+		}
 	}
 	b, _ := json.Marshal(m)
 	sc.out = append(sc.out, fmt.Sprintf("~wire change %s %s %s %s %s %s %s | %s",
@@ -270,14 +347,21 @@ func (sc *stateCase) publishChange(m *state.ChangeMessage, err error) {
 	sc.out = append(sc.out, "pub")
 }
 
-func changeOpts(f []string) []state.ChangeOption {
+func (sc *stateCase) changeOpts(f []string) []state.ChangeOption {
 	var o []state.ChangeOption
+	sc.want = wantHeaders{set: true, t0: time.Now()}
 	for _, w := range f {
 		switch {
 		case strings.HasPrefix(w, "tx="):
 			o = append(o, state.WithTxID(w[3:]))
+			sc.want.tx = w[3:]
 		case strings.HasPrefix(w, "ts="):
-			o = append(o, state.WithTimestamp(time.Unix(int64(atoi(w[3:])), 5).In(time.FixedZone("z", 3600))))
+			t := time.Unix(int64(atoi(w[3:])), 5).In(time.FixedZone("z", 3600))
+			o = append(o, state.WithTimestamp(t))
+			sc.want.ts = t.Format(time.RFC3339Nano)
+		case w == "auto":
+			o = append(o, state.WithAutoTimestamp())
+			sc.want.auto = true
 		case strings.HasPrefix(w, "et="):
 			o = append(o, state.WithEntityType(entName(atoi(w[3:]))))
 		}
@@ -338,7 +422,7 @@ func stateDomain(lines []string) []string {
 			sc.out = append(sc.out, "reg")
 		case "ins", "upd":
 			ty, key, v := arg(1), keyPool[arg(2)], arg(3)
-			o := changeOpts(f[4:])
+			o := sc.changeOpts(f[4:])
 			ins := f[0] == "ins"
 			switch ty {
 			case 1:
@@ -366,7 +450,7 @@ func stateDomain(lines []string) []string {
 			}
 		case "updold":
 			ty, key, v, old := arg(1), keyPool[arg(2)], arg(3), arg(4)
-			o := changeOpts(f[5:])
+			o := sc.changeOpts(f[5:])
 			switch ty {
 			case 1:
 				sc.publishChange(state.UpdateWithOldValue(key, mkE1(v), mkE1(old), o...))
@@ -377,7 +461,7 @@ func stateDomain(lines []string) []string {
 			}
 		case "del":
 			ty, key := arg(1), keyPool[arg(2)]
-			o := changeOpts(f[3:])
+			o := sc.changeOpts(f[3:])
 			switch ty {
 			case 1:
 				sc.publishChange(state.Delete[E1](key, o...))
